@@ -3,28 +3,34 @@
 (* C14: the space of concurrent programs over the supported public methods  *)
 (* of UDPSession and Listener.  A program is a multiset of 2 (all of them)   *)
 (* or 3 (sampled by simulation) methods, each run by its own goroutine on    *)
-(* one session while traffic flows on that session and on a neighbour        *)
-(* session of the same listener, under one cipher/FEC class.  TLC enumerates  *)
-(* the programs (every state is one program, printed as JSON); the harness    *)
-(* executes each under the Go race detector, whose reports are the verdict.   *)
-(* Deprecated methods (SetDUP, SetStreamMode, KCP.Update/Check) are excluded   *)
-(* as the property says.                                                      *)
+(* one session -- the dialled one or the one accepted by the listener (their  *)
+(* input paths differ) -- while traffic flows on that session and on a        *)
+(* neighbour session of the same listener, under one cipher/FEC class.  TLC   *)
+(* enumerates the programs (every state is one program, printed as JSON);     *)
+(* the harness executes each under the Go race detector, whose reports are    *)
+(* the verdict.  Deprecated methods (SetDUP, SetStreamMode, KCP.Update/Check)  *)
+(* are excluded as the property says.                                         *)
 (***************************************************************************)
 EXTENDS Integers, Sequences, FiniteSets, TLC, Json
+
+CONSTANT AllCombos    \* TRUE: every pair under every configuration and target (thorough); FALSE: one rotating combination per pair
 
 Methods == <<"Read", "Write", "WriteBuffers", "SetDeadline", "SetReadDeadline", "SetWriteDeadline", "SetWriteDelay", "SetWindowSize",
              "SetMtu", "SetACKNoDelay", "SetNoDelay", "SetRateLimit", "SetLogger", "GetConv", "GetRTO", "Addrs", "SetOOBHandler",
              "GetOOBMaxSize", "SendOOB", "Control", "SnmpCopy", "ListenerSetDeadline", "ListenerAccept", "Close">>
 Configs == <<"nil/0/0", "aes/2/1", "sm4/0/0", "gcm/3/2", "salsa20/10/3">>
+Targets == <<"dialled", "accepted">>
 N == Len(Methods)
 
-VARIABLE prog      \* [ms: sequence of method indices (non-decreasing), cfg: index]
-Init == prog \in {[ms |-> <<i, j>>, cfg |-> c] : i \in 1..N, j \in 1..N, c \in 1..Len(Configs)} /\ prog.ms[1] <= prog.ms[2]
-                 /\ prog.cfg = ((prog.ms[1] * N + prog.ms[2]) % Len(Configs)) + 1      \* one configuration per pair, rotating
+VARIABLE prog      \* [ms: sequence of method indices (non-decreasing), cfg: index, tgt: index]
+Init == /\ prog \in {[ms |-> <<i, j>>, cfg |-> c, tgt |-> t] : i \in 1..N, j \in 1..N, c \in 1..Len(Configs), t \in 1..Len(Targets)}
+        /\ prog.ms[1] <= prog.ms[2]
+        /\ AllCombos \/ (/\ prog.cfg = ((prog.ms[1] * N + prog.ms[2]) % Len(Configs)) + 1
+                         /\ prog.tgt = ((prog.ms[1] + prog.ms[2]) % Len(Targets)) + 1)
 (* a pair may be extended by a third method *)
 Next == /\ Len(prog.ms) = 2 /\ \E k \in 1..N : k >= prog.ms[2] /\ prog' = [prog EXCEPT !.ms = Append(@, k)]
 Spec == Init /\ [][Next]_prog
-Emit == PrintT(<<"PROG", ToJson([ms |-> [i \in 1..Len(prog.ms) |-> Methods[prog.ms[i]]], cfg |-> Configs[prog.cfg]])>>)
+Emit == PrintT(<<"PROG", ToJson([ms |-> [i \in 1..Len(prog.ms) |-> Methods[prog.ms[i]]], cfg |-> Configs[prog.cfg], tgt |-> Targets[prog.tgt]])>>)
 (* every pair of supported methods is a program *)
 EmitTriples == Len(prog.ms) = 3 => Emit
 PairsOnly == Len(prog.ms) <= 1
